@@ -482,7 +482,7 @@ func checkC14(c *runCtx) {
 	// ---- part 6: activeTCPConn (the dialing side of a TCP candidate) over a real loopback connection. The segmentation
 	// is whatever the kernel does, so this part adds no exhaustiveness; every oracle is independent of it (same
 	// packets, same order, nothing fabricated). Waiting is only ever for something a correct implementation must do.
-	for _, sc := range []string{"frames-in", "frames-out", "oversized-in", "garbage-in"} {
+	for _, sc := range []string{"frames-in", "frames-out", "duplex", "oversized-in", "garbage-in"} {
 		problem := c14active(sc)
 		evals++
 		nontrivial++
@@ -490,7 +490,7 @@ func checkC14(c *runCtx) {
 			report("activeTCPConn over loopback", sc+": "+problem, map[string]any{"scenario": sc}, "")
 		}
 	}
-	c.sample(map[string]any{"part": "activeTCPConn over loopback", "scenarios": "frames of 1/255/8192 bytes inbound (written byte-wise and at once) and outbound; an oversized frame whose body is well-formed frames; a garbage stream"})
+	c.sample(map[string]any{"part": "activeTCPConn over loopback", "scenarios": "frames of 1/255/8192 bytes inbound (written byte-wise and at once) and outbound; inbound frames of 40/1000/8192 bytes in three segments with an outbound packet written and received between the segments; an oversized frame whose body is well-formed frames; a garbage stream"})
 
 	c.set("evaluations", evals)
 	c.set("distinct_nontrivial", nontrivial)
@@ -631,6 +631,49 @@ func c14active(scenario string) string {
 		if !bytes.Equal(got, want) {
 			return "the byte stream received by the peer is not the RFC 4571 framing of the packets written"
 		}
+	case "duplex":
+		// both directions at once: every inbound frame arrives in three segments and an outbound packet is written
+		// (and seen on the wire by the peer) between the segments; neither direction may disturb the other
+		peerGot := func(want []byte) string {
+			got := make([]byte, len(want))
+			_ = peer.SetReadDeadline(time.Now().Add(60 * time.Second))
+			if _, err := io.ReadFull(peer, got); err != nil {
+				return "the peer did not receive the framed packet: " + err.Error()
+			}
+			if !bytes.Equal(got, want) {
+				return "the byte stream received by the peer is not the RFC 4571 framing of the packet written"
+			}
+
+			return ""
+		}
+		for k, sz := range []int{1000, receiveMTU, 40} {
+			in := c14payload(sz, byte(10+k))
+			stream := c14frame(in)
+			cuts := []int{1, 2 + sz*9/10, len(stream)}
+			from := 0
+			for j, cut := range cuts {
+				if _, err := peer.Write(stream[from:cut]); err != nil {
+					return err.Error()
+				}
+				from = cut
+				if j == len(cuts)-1 {
+					break
+				}
+				time.Sleep(50 * time.Millisecond) // let the reader take the segment (no alarm depends on it)
+				out := c14payload(sz-7*j, byte(0xa0+k+j))
+				if n, err := ac.WriteTo(out, nil); err != nil || n != len(out) {
+					return fmt.Sprintf("WriteTo(%d bytes) = %d, %v", len(out), n, err)
+				}
+				if p := peerGot(c14frame(out)); p != "" {
+					return p
+				}
+			}
+			if p := expect([][]byte{in}); p != "" {
+				return fmt.Sprintf("inbound frame of %d bytes delivered in segments while packets were written: %s", sz, p)
+			}
+		}
+
+		return noMore("after the last frame")
 	case "oversized-in":
 		lead := c14payload(3, 9)
 		stream := c14frame(lead)
